@@ -102,3 +102,14 @@ pub fn vf_collect_map<K: core::hash::Hash + Eq, V>(v: Vec<(K, V)>) -> (r: HashMa
 // std::cmp::min / Ord::min: assumed std semantics (the smaller value; the first when equal)
 pub assume_specification<T: Ord>[ std::cmp::min ](a: T, b: T) -> (r: T)
     ensures <T as vstd::std_specs::cmp::OrdSpec>::obeys_cmp_spec() ==> r == (if vstd::std_specs::cmp::OrdSpec::cmp_spec(&a, &b) == core::cmp::Ordering::Greater { b } else { a });
+// it.enumerate().filter_map(f) over the collected items: the Some-values of f((index, item)) in order.  Stated: every result comes
+// from some position, and every position whose value is Some contributes it (std semantics assumed)
+#[verifier::external_body]
+pub fn vf_enum_filter_map<T, B, F: Fn((usize, T)) -> Option<B>>(v: Vec<T>, f: F) -> (r: Vec<B>)
+    requires forall|i: int| 0 <= i < v@.len() ==> call_requires(f, ((i as usize, #[trigger] v@[i]),)),
+    ensures
+        forall|j: int| 0 <= j < r@.len() ==> exists|i: int| 0 <= i < v@.len() && call_ensures(f, ((i as usize, v@[i]),), Some(#[trigger] r@[j])),
+        forall|i: int| 0 <= i < v@.len() ==> exists|o: Option<B>| call_ensures(f, ((i as usize, #[trigger] v@[i]),), o) && (o is Some ==> r@.contains(o->Some_0)),
+        r@.len() <= v@.len(),
+{ unimplemented!() }
+
